@@ -132,6 +132,7 @@ func vh_IS() {
 		return
 	}
 	post := vSnapshotNode(n)
+	vCheckInv(n, true, true)
 	// ---- term rules (C08/C02/C16)
 	vAssert(post.term >= pre.term, "C08.termMono")
 	vAssert(vAnd(resp.Term >= pre.term, resp.Term <= post.durTerm), "C08.reply-term-bounded")
